@@ -13,12 +13,17 @@ namespace MW.Chain
 open MW MW.Staking
 
 /-- honest-environment conditions on a message (DESIGN.md §12): nobody stakes on behalf of the
-contract's own address, the operator does not re-route the channel while the contract runs, and
-forced recovery (admin override of the packet selection) is not used -/
+contract's own address; the operator does not re-route the channel, re-denominate the staked
+asset or move the staker address while the contract runs; the treasury is not the contract itself;
+and forced recovery (admin override of the packet selection) is not used -/
 def MsgOKc (s : CState) (self sender : String) : ExecMsg → Prop
   | .liquidStake mt _ _ => mt.getD sender ≠ self
-  | .updateConfig _ p _ _ _ => ∀ pr, p = some pr → pr.channel = s.config.proto.channel
+  | .updateConfig n p _ _ _ =>
+    (∀ pr, p = some pr → pr.channel = s.config.proto.channel ∧ pr.ibcDenom = s.config.proto.ibcDenom)
+    ∧ (∀ nr, n = some nr → nr.staker = s.config.native.staker)
   | .recover _ sel _ => sel = none
+  | .receiveRewards => s.config.feeCfg.treasury ≠ some self
+  | .feeWithdraw _ => s.config.feeCfg.treasury ≠ some self
   | _ => True
 
 /-- LST handed in by the caller that the handler books (only `LiquidUnstake` does) -/
@@ -265,22 +270,35 @@ theorem facts_receive {s s' : CState} {env : Env} {info : Info} {b : Nat} {out :
   simp only [pendTotal, refundableSum, AMap.find?_insert, hne', ↓reduceIte, balSum, unstakeFunds]
   omega
 
-theorem refundedAmt_sum (X denom : String) (ps : List Packet)
-    (h : ∀ p ∈ ps, p.coin.denom = denom ∧ (p.status = .ackFailure ∨ p.status = .timedOut)) :
-    (ps.map (refundedAmt X)).sum = if denom = X then (ps.map (·.coin.amount)).sum else 0 := by
+theorem refundedAmt_eq_refW (X : String) : refundedAmt X = refW (fun d _ => decide (d = X)) := by
+  funext p
+  simp only [refundedAmt, refW]
+  by_cases h1 : p.coin.denom = X <;> cases hs : p.status <;> simp [h1]
+
+theorem refW_sum (P : String → String → Bool) (denom recv : String) (ps : List Packet)
+    (h : ∀ p ∈ ps, p.coin.denom = denom ∧ p.receiver = recv ∧ (p.status = .ackFailure ∨ p.status = .timedOut)) :
+    (ps.map (refW P)).sum = if P denom recv then (ps.map (·.coin.amount)).sum else 0 := by
   induction ps with
   | nil => simp
   | cons p rest ih =>
-    obtain ⟨h1, h2⟩ := h p (by simp)
+    obtain ⟨h1, h2, h3⟩ := h p (by simp)
     have := ih (fun q hq => h q (List.mem_cons_of_mem _ hq))
-    simp only [List.map_cons, List.sum_cons, this, refundedAmt, h1, h2, and_true]
-    split <;> simp
+    simp only [List.map_cons, List.sum_cons, this, refW, h1, h2]
+    rcases h3 with h3 | h3 <;> simp only [h3] <;> split <;> simp_all
 
-/-- RecoverPendingIbcTransfers without the admin's packet selection -/
-theorem facts_recover {s s' : CState} {env : Env} {info : Info} {pg : Option Bool} {rc : Option String}
-    {out : List SubMsg} {self : String} (hi : CInv s)
-    (hx : execute s env info (.recover pg none rc) = .ok (s', out)) :
-    ExecFacts s s' self info.funds (.recover pg none rc) out := by
+/-- RecoverPendingIbcTransfers without the admin's packet selection: one tracked transfer of the sum
+of the selected packets, which are refundable packets of one receiver and one denom, each present
+under its own key and selected once -/
+theorem recover_core {s s' : CState} {env : Env} {info : Info} {pg : Option Bool} {rc : Option String}
+    {out : List SubMsg} (hi : CInv s) (hx : execute s env info (.recover pg none rc) = .ok (s', out)) :
+    ∃ recv denom total id,
+      out = [transferSub s env id recv ⟨denom, total⟩]
+      ∧ s'.config = s.config ∧ s'.st = s.st ∧ s'.batches = s.batches ∧ s'.pendingId = s.pendingId
+      ∧ (∀ m ∈ out, Tracked s' m)
+      ∧ (∀ k e, s'.inflight.find? k = some e → s.inflight.find? k = some e)
+      ∧ (∀ k e, s.inflight.find? k = some e → e.status = .sent → s'.inflight.find? k = some e)
+      ∧ ∀ P : String → String → Bool,
+          AMap.sumBy (refW P) s'.inflight + (if P denom recv then total else 0) = AMap.sumBy (refW P) s.inflight := by
   simp only [execute] at hx
   obtain ⟨recv, packets, denom, maxId, total, _, _, hp, _, hall, _, htot, _, _, hs', hout⟩ := recover_eff hx
   simp only [selectPackets, Except.ok.injEq] at hp
@@ -308,19 +326,15 @@ theorem facts_recover {s s' : CState} {env : Env} {info : Info} {pg : Option Boo
     unfold List.Nodup
     rw [List.pairwise_map]
     exact hpw.sublist hsub
-  have hsum : (packets.map (refundedAmt s.config.lstDenom)).sum
-      = if denom = s.config.lstDenom then (packets.map (·.coin.amount)).sum else 0 := by
-    have hall' : ∀ p ∈ packets, p.coin.denom = denom ∧ (p.status = .ackFailure ∨ p.status = .timedOut) := by
-      intro p hpm
-      have h1 := List.all_eq_true.mp hall p hpm
-      have h2 := (hmem p hpm).1
-      simp only [refundable, Bool.and_eq_true, decide_eq_true_eq, Bool.or_eq_true] at h2
-      exact ⟨by simpa using h1, h2.2⟩
-    exact refundedAmt_sum _ _ _ hall'
+  have hall' : ∀ p ∈ packets, p.coin.denom = denom ∧ p.receiver = recv ∧ (p.status = .ackFailure ∨ p.status = .timedOut) := by
+    intro p hpm
+    have h1 := List.all_eq_true.mp hall p hpm
+    have h2 := (hmem p hpm).1
+    simp only [refundable, Bool.and_eq_true, decide_eq_true_eq, Bool.or_eq_true] at h2
+    exact ⟨by simpa using h1, h2.1, h2.2⟩
   have htotal := sumAmounts_eq _ _ _ _ htot
-  have herase := sumBy_erasePackets (refundedAmt s.config.lstDenom) hi.sortedI packets hnd (fun p hpm => (hmem p hpm).2)
   subst hs' hout
-  refine ⟨rfl, rfl, ?_, ?_, ?_, ?_, ?_⟩
+  refine ⟨recv, denom, total, maxId + 1, rfl, rfl, rfl, rfl, rfl, ?_, ?_, ?_, ?_⟩
   · intro x hx
     simp only [List.mem_singleton] at hx; subst hx
     refine tracked_transferSub rfl ?_
@@ -337,19 +351,37 @@ theorem facts_recover {s s' : CState} {env : Env} {info : Info} {pg : Option Boo
       rw [hk, h] at hf
       cases hf
       simp [refundable, hsent] at hr
-  · have hb : balSum self s.config.lstDenom [transferSub s env (maxId + 1) recv ⟨denom, total⟩]
-        = if denom = s.config.lstDenom then -(total : Int) else 0 := by
-      simp [balSum, balEff, transferSub]
-    simp only [pendTotal, refundableSum, hb, unstakeFunds]
-    rw [hsum] at herase
+  · intro P
+    have herase := sumBy_erasePackets (refW P) hi.sortedI packets hnd (fun p hpm => (hmem p hpm).2)
+    rw [refW_sum P denom recv packets hall'] at herase
+    show AMap.sumBy (refW P) (erasePackets s.inflight packets) + _ = _
     split
-    · rename_i hd
-      simp only [hd, ↓reduceIte] at herase
+    · rename_i hP
+      simp only [hP, ↓reduceIte] at herase
       omega
-    · rename_i hd
-      simp only [hd, ↓reduceIte] at herase
+    · rename_i hP
+      have hP' : P denom recv = false := by simpa using hP
+      simp only [hP', Bool.false_eq_true, ↓reduceIte] at herase
       omega
-  · simp [SupSpec, supSum, supEff, transferSub]
+
+theorem facts_recover {s s' : CState} {env : Env} {info : Info} {pg : Option Bool} {rc : Option String}
+    {out : List SubMsg} {self : String} (hi : CInv s)
+    (hx : execute s env info (.recover pg none rc) = .ok (s', out)) :
+    ExecFacts s s' self info.funds (.recover pg none rc) out := by
+  obtain ⟨recv, denom, total, id, hout, hcfg, hst, hb, hpid, htr, hnn, hks, hsum⟩ := recover_core hi hx
+  have h1 := hsum (fun d _ => decide (d = s.config.lstDenom))
+  rw [← refundedAmt_eq_refW] at h1
+  refine ⟨by rw [hcfg], by rw [hcfg], htr, hnn, hks, ?_, ?_⟩
+  · have hbal : balSum self s.config.lstDenom out = if denom = s.config.lstDenom then -(total : Int) else 0 := by
+      subst hout; simp [balSum, balEff, transferSub]
+    rw [pendTotal_congr hb hpid, hbal]
+    simp only [refundableSum, unstakeFunds]
+    simp only [decide_eq_true_eq] at h1
+    split
+    · rename_i hd; simp only [hd, ↓reduceIte] at h1; omega
+    · rename_i hd; simp only [hd, ↓reduceIte] at h1; omega
+  · subst hout
+    simp [SupSpec, supSum, supEff, transferSub, hst]
 
 /-- every successful `execute` under the honest-environment conditions -/
 theorem execute_facts {s s' : CState} {env : Env} {info : Info} {m : ExecMsg} {out : List SubMsg} {self : String}
@@ -398,7 +430,7 @@ theorem execute_facts {s s' : CState} {env : Env} {info : Info} {m : ExecMsg} {o
         simp only [bind_ok, pure_ok, ensure_ok] at hp'
         obtain ⟨_, _, _, _, _, _, _, _, hp'⟩ := hp'
         subst hp'
-        exact hok c hc'
+        exact (hok.1 c hc').1
     exact execFacts_frame rfl rfl rfl rfl hch (by simp) rfl rfl (by simp [SupSpec, supSum])
   case circuitBreaker =>
     simp only [execute] at hx
